@@ -354,7 +354,12 @@ func (o *Once) Do(f func()) {
 	if simrt.OnceEnter(&o.m, unsafe.Pointer(o)) {
 		defer simrt.OnceLeave(&o.m)
 		o.real.Do(f)
+		return
 	}
+	// f has completed in another task. Go through the real Once as well (it does
+	// not call anything now): its done flag carries the happens-before edge from
+	// the end of f to this return, which the race detector must see.
+	o.real.Do(func() {})
 }
 
 // Pool is sync.Pool made deterministic: LIFO, emptied at the start of every
